@@ -205,7 +205,7 @@ func c13Names(ops []int) []string {
 }
 
 func c13Run(r *core.Run) {
-	depth, treeDepth := 6, 0
+	depth, treeDepth := 7, 0
 	r.SetBudget(60 * time.Second)
 	if r.Thorough() {
 		depth, treeDepth = 9, 7
